@@ -68,6 +68,60 @@ func execTaskQ(args []string) string {
 		})
 	}
 	released := map[int]bool{}
+	auto := map[int]bool{}
+	// `w<id>` / `v<id>`: the task is submitted through WriteAsync / WritevAsync; it needs no gate: it starts when the queue
+	// reaches it, writes (or fails to: the connection may have ended) and reports through its callback, which is the event
+	// recorded for it
+	submitW := func(id int, vec bool) {
+		s, f := make(chan struct{}), make(chan struct{})
+		mu.Lock()
+		startedCh[id], finishedCh[id] = s, f
+		order = append(order, id)
+		auto[id] = true
+		mu.Unlock()
+		cb := func(error) {
+			n := atomic.AddInt32(&running, 1)
+			for {
+				m := atomic.LoadInt32(&maxRun)
+				if n <= m || atomic.CompareAndSwapInt32(&maxRun, m, n) {
+					break
+				}
+			}
+			mu.Lock()
+			started = append(started, id)
+			ran[id]++
+			mu.Unlock()
+			atomic.AddInt32(&running, -1)
+			close(s)
+			close(f)
+		}
+		if vec {
+			conn.WritevAsync(gws.OpcodeText, [][]byte{[]byte("a"), []byte(strconv.Itoa(id))}, cb)
+		} else {
+			conn.WriteAsync(gws.OpcodeText, []byte("w"+strconv.Itoa(id)), cb)
+		}
+	}
+	// settle: a WriteAsync task whose predecessors (in submission order) have all finished must finish by itself
+	settle := func() string {
+		mu.Lock()
+		ids := append([]int(nil), order...)
+		mu.Unlock()
+		for _, id := range ids {
+			if released[id] {
+				continue
+			}
+			if !auto[id] {
+				return ""
+			}
+			select {
+			case <-finishedCh[id]:
+				released[id] = true
+			case <-time.After(5 * time.Second):
+				return fmt.Sprintf("STRANDED write task %d never reported", id)
+			}
+		}
+		return ""
+	}
 	release := func(id int) string {
 		mu.Lock()
 		s, g, f := startedCh[id], gates[id], finishedCh[id]
@@ -105,9 +159,17 @@ func execTaskQ(args []string) string {
 				continue
 			}
 			id, _ := strconv.Atoi(a[1:])
-			if a[0] == 'p' {
+			switch a[0] {
+			case 'p':
 				submit(id)
-			} else if msg := release(id); msg != "" {
+			case 'w', 'v':
+				submitW(id, a[0] == 'v')
+			default:
+				if msg := release(id); msg != "" {
+					return msg
+				}
+			}
+			if msg := settle(); msg != "" {
 				return msg
 			}
 		}
@@ -120,10 +182,13 @@ func execTaskQ(args []string) string {
 		}
 	}
 	for _, id := range order {
-		if !released[id] {
+		if !released[id] && !auto[id] {
 			if msg := release(id); msg != "" {
 				return msg
 			}
+		}
+		if msg := settle(); msg != "" {
+			return msg
 		}
 	}
 	mu.Lock()
@@ -310,6 +375,35 @@ func genTaskQ(g *Gen) {
 			case c < 2:
 				acts = append(acts, "z")
 			case c == 2 && !closed:
+				acts = append(acts, "x")
+				closed = true
+			case len(unfinished) == 0 || c < 7:
+				acts = append(acts, "p"+strconv.Itoa(id))
+				unfinished = append(unfinished, id)
+				id++
+			default:
+				acts = append(acts, "n"+strconv.Itoa(unfinished[0]))
+				unfinished = unfinished[1:]
+			}
+		}
+		g.Emit("taskq 1 %s", strings.Join(acts, ","))
+	}
+	// tasks submitted through WriteAsync / WritevAsync (w, v) among gated tasks, before and after the connection ended:
+	// they are queue tasks like any other — their callbacks report in submission order, never beside a running task
+	for _, acts := range []string{"w1,w2,v3", "p1,w2,v3,n1", "p1,x,w2,n1", "p1,x,v2,w3,p4,n1,n4", "x,w1,v2", "p1,p2,x,w3,n1,v4,n2", "p1,w2,x,w3,n1"} {
+		g.Emit("taskq 1 %s", acts)
+	}
+	for i := 0; i < g.pick(60, 600); i++ {
+		n := 4 + g.R.Intn(14)
+		var acts []string
+		var unfinished []int // gated tasks not yet released
+		id, closed := 1, false
+		for j := 0; j < n; j++ {
+			switch c := g.R.Intn(10); {
+			case c < 3:
+				acts = append(acts, []string{"w", "v"}[g.R.Intn(2)]+strconv.Itoa(id))
+				id++
+			case c == 3 && !closed:
 				acts = append(acts, "x")
 				closed = true
 			case len(unfinished) == 0 || c < 7:
